@@ -125,6 +125,9 @@ BuilderParams ==
   { [seq |-> q] : q \in UNION { SeqsOfLen(BSlots \X {1, 2}, n) : n \in 0..MaxSeq } }
   \cup { [seq |-> <<<<s, 1>>>>] : s \in AllSlots }
   \cup { [seq |-> <<<<s, 1>>, <<t, 2>>>>] : s \in AllSlots, t \in AllSlots }
+  \* repeatable kinds in the order X, Y, X (contents 1, 2, 1 - for custom tags these are different type numbers) and X, X
+  \cup { [seq |-> <<<<s, 1>>, <<s, 2>>, <<s, 1>>>>] : s \in {"custom", "smbios", "module"} }
+  \cup { [seq |-> <<<<s, 1>>, <<t, 1>>, <<s, 2>>, <<t, 2>>, <<s, 1>>>>] : s \in {"custom", "smbios"}, t \in {"module", "custom"} }
   \cup { [seq |-> <<<<s, 3>>>>] : s \in AllSlots } \cup { [seq |-> <<<<s, 3>>, <<t, 3>>>>] : s \in BSlots, t \in BSlots }
 BuilderCase(p) ==
   [mem |-> <<>>, al |-> 0,
